@@ -2,6 +2,8 @@
 # usage: tools_seed_all.sh [ids...] : apply every seeded change to /repo in turn, run the check of its property (quick tier), undo it;
 # writes seeded/RESULTS.tsv (id, rc, deciding parts).  /repo must be clean before and is left clean.
 cd /verif
+EVBAK=$(mktemp -d); cp -r /verif/evidence/. $EVBAK/   # evidence files describe the unchanged tree: runs on patched trees must not replace them
+trap 'cp -r $EVBAK/. /verif/evidence/; rm -rf $EVBAK' EXIT
 ids="$@"; [ -z "$ids" ] && ids=$(ls seeded | grep -E '^C[0-9]+-[0-9]+$' | sort -V)
 [ -n "$(git -C /repo status --short)" ] && { echo "/repo not clean"; exit 9; }
 for id in $ids; do
